@@ -266,11 +266,6 @@ func (dsm *DsManager) DeleteDataset(name string) error {
 	dsm.store.datasetsByInternalID.Delete(existingDataset.InternalID)
 	verifhook.Point("DeleteDataset:after-unregister-dataset")
 	key := existingDataset.getStorageKey()
-	err := dsm.store.deleteValue(key)
-	if err != nil {
-		return err
-	}
-	verifhook.Point("DeleteDataset:after-delete-dataset-record")
 
 	// record we deleted it.
 	// swap map out with new modified copy of map to avoid concurrent read/write issues which can occur if
@@ -280,6 +275,14 @@ func (dsm *DsManager) DeleteDataset(name string) error {
 		newDeletedDatasets[k] = v
 	}
 	newDeletedDatasets[existingDataset.InternalID] = true
+
+	// remove the dataset record and persist the list of deleted datasets in one transaction. if the process dies
+	// between two separate writes, the dataset is gone by name while its data still shows up in unscoped queries
+	err := dsm.store.deleteDatasetRecord(key, newDeletedDatasets)
+	if err != nil {
+		return err
+	}
+	verifhook.Point("DeleteDataset:after-delete-dataset-record")
 	dsm.store.deletedDatasets = newDeletedDatasets
 	verifhook.Point("DeleteDataset:after-swap-deletedDatasets")
 	err = dsm.store.StoreObject(StoreMetaIndex, "deleteddatasets", dsm.store.deletedDatasets)
